@@ -316,3 +316,8 @@ func SelectStart(n int) int {
 	}
 	return 0
 }
+
+// GoGate is inserted by simgen at the start of goroutines launched by `go`
+// statements (files opted in with "go_gates"): the order in which freshly
+// started goroutines get going becomes a scheduler decision.
+func GoGate(site string) { sim.Yield(sim.GateGo, site) }
